@@ -79,8 +79,11 @@ def condition_branches(ctx: Ctx, pid: str):
                       required="default branch: ready = ~any(all previously recorded conditions), unconditionally driven")
         elif is_default is False:
             saw_cond = True
-            ctx.check(h.rhs == cond and h.domain == ("c", "top_comb"), rule + ".cond-ready", h.site, "condition.branch.cond", found=f"{tstr(h.domain)} += ready.eq({tstr(h.rhs)})",
-                      required="conditional branch: ready = its condition")
+            # the truth value of the condition (F32: a multi-bit condition assigned to the one-bit ready keeps bit 0 only)
+            truth = h.rhs in (("call", ("a", ("call", ("a", ("n", "Value"), "cast"), (cond,), ()), "bool"), (), ()), ("call", ("a", cond, "bool"), (), ()),
+                              ("call", ("a", ("call", ("a", ("n", "Value"), "cast"), (cond,), ()), "any"), (), ()), ("op", "!=", cond, ("c", 0)))
+            ctx.check(truth and h.domain == ("c", "top_comb"), rule + ".cond-ready", h.site, "condition.branch.cond", found=f"{tstr(h.domain)} += ready.eq({tstr(h.rhs)})",
+                      required="conditional branch: ready = the truth value of its condition (Value.cast(cond).bool()), as m.If tests it")
         # (g) transaction recorded
         trs = [pmatch("Q_l.append(Q_x)", e.call) for e in ex.of(Effect)]
         trs = [m for m in trs if m and m["x"] == ("a", b.owner, "_body")]
@@ -124,6 +127,32 @@ def condition_branches(ctx: Ctx, pid: str):
             ok = True
     ctx.check(ok, rule + ".alternatives", rels[0][1].site if rels else fn.site, "condition.simultaneous_alternatives", found="; ".join(f"{tstr(ex.vardef(r.subject) or r.subject)}.simultaneous_alternatives({', '.join(tstr(a) for a in r.args)})" for ex, r in rels) or "none",
               required="the enclosing body declares simultaneous_alternatives(*all branches)")
+    # (f') the alternatives exclude each other by themselves (F33): inside a nonexclusive method the merged transactions of two
+    # callers share no exclusive body, so without a declared conflict T1+branch0 and T2+branch1 run together
+    alts = None
+    for ex, r in rels:
+        if len(r.args) == 1 and r.args[0][0] == "star":
+            alts = r.args[0][1]
+    confl = fn.facts(Relation, lambda r: r.kind == "add_conflict")
+    okc = False
+    for ex, r in confl:
+        lp = loops(r)
+        if len(lp) != 2 or len(r.args) != 1 or py_guard(r) is not True or alts is None:
+            continue
+        (i,), it1 = lp[0]
+        (o,), it2 = lp[1]
+        # for i, t in enumerate(L) / for o in L[i + 1:]  (the extractor binds the index: t == L[i])
+        all_pairs = (pmatch("enumerate(Q_l)", it1) == {"l": alts} or it1 == ("call", ("n", "range"), (("call", ("n", "len"), (alts,), ()),), ())) and \
+            it2 == ("i", alts, ("slice", mk_op("+", i, ("c", 1)), ("c", None), ("c", None)))
+        okc = okc or (all_pairs and {r.subject, r.args[0]} == {("i", alts, i), o})
+        # or: for a, b in combinations(L, 2)
+    for ex, r in confl:
+        lp = loops(r)
+        if len(lp) == 1 and len(lp[0][0]) == 2 and pmatch("combinations(Q_l, 2)", lp[0][1]) == {"l": alts} and py_guard(r) is True and len(r.args) == 1 and {r.subject, r.args[0]} == set(lp[0][0]):
+            okc = True
+    ctx.check(okc, rule + ".alternatives-conflict", confl[0][1].site if confl else fn.site, "condition.alternatives.add_conflict",
+              found="; ".join(f"{tstr(r.subject)}.add_conflict({', '.join(tstr(a) for a in r.args)}) over {[tstr(l[1]) for l in loops(r)]}" for _, r in confl) or "no conflict declared between the branches",
+              required="every two branches of one condition() are declared conflicting (at most one branch runs, also when the containing method is nonexclusive)")
 
 
 def simultaneous_relations(ctx: Ctx, pid: str):
@@ -133,7 +162,7 @@ def simultaneous_relations(ctx: Ctx, pid: str):
     others = ("p", fn.fi.qualname, "*", "others")
     st = fn.facts(Store, lambda s: s.target == pat("self.simultaneous_list") and s.aug == "+")
     eff = fn.facts(Effect, lambda e: pmatch("Q_o.simultaneous_list.append(self)", e.call) is not None)
-    ok = bool(st) and st[0][1].value == others and bool(eff) and loops(eff[0][1]) and loops(eff[0][1])[0][1] == others and pmatch("Q_o.simultaneous_list.append(self)", eff[0][1].call)["o"] == loops(eff[0][1])[0][0][0]
+    ok = bool(st) and st[0][1].value == others and bool(eff) and loops(eff[0][1]) and loops(eff[0][1])[0][1] == others and pmatch("Q_o.simultaneous_list.append(self)", eff[0][1].call)["o"] == loops(eff[0][1])[0][0][0] and py_guard(eff[0][1]) is True and py_guard(st[0][1]) is True
     ctx.check(bool(ok), rule + ".symmetric", fn.site, "TransactionBase.simultaneous", found=f"own list += others: {bool(st)}; others' lists get self: {bool(eff)}",
               required="simultaneity is recorded on both sides")
     fa = _fn(ctx, TBASE, "TransactionBase.simultaneous_alternatives", rule)
@@ -210,7 +239,15 @@ def merged_transactions(ctx: Ctx, pid: str):
         if okf and okm:
             ok = True
             # group source
-            ctx.check(py_guard(c) is True, rule + ".unconditional", c.site, "_simultaneous.member-call", found=fstr(py_guard(c)), required="every member of the group is called")
+            # ... of every group that is built at all (F29: a group without a caller of a member's enclosing body is skipped)
+            gc = py_guard(c)
+            okg = gc is True
+            if not okg:
+                from ..logic import atoms_of as _atoms, equivalent as _equiv, f_not as _not
+
+                ats = _atoms(gc)
+                okg = len(ats) == 1 and core7._enclosing_missing_atom(ex, ats[0], gb) and _equiv(gc, _not(("atom", ats[0]))) is None
+            ctx.check(okg, rule + ".unconditional", c.site, "_simultaneous.member-call", found=fstr(gc), required="every member of a built group is called")
     ctx.check(ok, rule, calls[0][1].site, "_simultaneous.merged", found=detail,
               required="for every final group one transaction calling methods[t] for every member t (method t wraps transaction t), enable_call = all(run of its conditional ready-dependencies)")
     # relations between simultaneous partners are the only ones dropped
